@@ -470,6 +470,7 @@ class Project(MessageHandler):
         # A milestone is either:
         # 1. Explicitly marked with milestone attribute, or
         # 2. Has start or end set, but no effort/duration/length (implicit milestone)
+        invalid_tasks: list[Any] = []
         for task in all_tasks:
             if not task.leaf():
                 continue
@@ -487,6 +488,19 @@ class Project(MessageHandler):
             is_implicit_milestone = (start or end) and effort == 0 and duration == 0 and length == 0
 
             if is_explicit_milestone or is_implicit_milestone:
+                if start and end and end < start:
+                    # Contradictory pins: nothing sensible can be reported for this task
+                    self.warning("task_end_before_start", f"Task {task.fullId} is pinned to end before it starts")
+                    invalid_tasks.append(task)
+                    continue
+                horizon_start = self.attributes.get("start")
+                horizon_end = self.attributes.get("end")
+                if horizon_start and horizon_end and any(
+                    d is not None and (d < horizon_start or d > horizon_end) for d in (start, end)
+                ):
+                    # Pinned outside the scheduling horizon: leave it to the main loop,
+                    # whose range check reports it as not schedulable.
+                    continue
                 # Only mark as scheduled if we can set both dates
                 # Milestones with dependencies but no dates need to go through normal scheduling
                 if start and not end:
@@ -505,7 +519,9 @@ class Project(MessageHandler):
         self._propagateALAPMode(scIdx)
 
         # Only care about leaf tasks that aren't scheduled already
-        tasks: list[Any] = [t for t in all_tasks if t.leaf() and not t.get("scheduled", scIdx)]
+        tasks: list[Any] = [
+            t for t in all_tasks if t.leaf() and not t.get("scheduled", scIdx) and t not in invalid_tasks
+        ]
 
         # Sorting
         # Primary: priority (desc), Secondary: pathcriticalness (desc), Tertiary: seqno (asc)
@@ -518,7 +534,7 @@ class Project(MessageHandler):
 
         tasks.sort(key=sort_key)
 
-        failedTasks: list[Any] = []
+        failedTasks: list[Any] = list(invalid_tasks)
 
         # Containers whose children were all placed by the milestone pass above
         # are complete already: tasks depending on them must be ready from the start.
